@@ -915,6 +915,12 @@ func (s *Store) monitorLeaseAsPrimary(ctx context.Context, lease Lease) error {
 	// If the leaser doesn't have a cluster ID yet, generate one or set it to ours.
 	if v, err := s.Leaser.ClusterID(ctx); err != nil {
 		return fmt.Errorf("set cluster id: %w", err)
+	} else if v != "" && v != s.ClusterID() {
+		// The cluster ID on the leaser may have been initialized (or replaced)
+		// after monitorLease() compared it with ours and before the lease was
+		// obtained. Never act as primary for a cluster other than our own:
+		// give the lease back (deferred Close above) and start over.
+		return fmt.Errorf("cannot become primary, %q lease initialized with different cluster id: %q <> %q", s.Leaser.Type(), v, s.ClusterID())
 	} else if v == "" {
 		// Use existing ID or generate a new one.
 		clusterID := s.ClusterID()
